@@ -77,6 +77,20 @@ Fixpoint ok_steps (c : cluster) (tr : list (op * cluster)) : bool :=
 Definition last_state (c0 : cluster) (tr : list (op * cluster)) : cluster :=
   default c0 (last (map snd tr)).
 
+(* an exchange during which other operations completed is observed a second time, in the middle (after the inner
+   operations, before the initiator processes the ack): nothing may regress from the state before to the middle,
+   nor from the middle to the end — what the initiator learnt meanwhile must survive its own merge *)
+Fixpoint ok_mids (c : cluster) (tr : list (op * cluster)) (mids : list cluster) : bool :=
+  match tr with
+  | [] => true
+  | (ExchangeN _ _ _, c') :: rest =>
+      match mids with
+      | m :: ms => cleb c m && cleb m c' && ok_mids c' rest ms
+      | [] => ok_mids c' rest []
+      end
+  | (_, c') :: rest => ok_mids c' rest mids
+  end.
+
 (* the monitor: applied to IMPLEMENTATION observations *)
 Definition ok_C12 (c0 : cluster) (tr : list (op * cluster)) : bool :=
   ok_steps c0 tr &&
@@ -85,10 +99,29 @@ Definition ok_C12 (c0 : cluster) (tr : list (op * cluster)) : bool :=
 (* ---- case files ---- *)
 Definition raw_view := list (N * (N * N * N * N)).
 Definition raw_cluster := list (N * raw_view).
-Definition case_t : Type := raw_cluster * list (op * raw_cluster).
+Definition case_t : Type := raw_cluster * list (op * raw_cluster) * list raw_cluster.
 
 Definition obs_of (c : case_t) : cluster * list (op * cluster) :=
-  (mk_cluster c.1, map (fun oc => (oc.1, mk_cluster oc.2)) c.2).
+  (mk_cluster c.1.1, map (fun oc => (oc.1, mk_cluster oc.2)) c.1.2).
+Definition mids_of (c : case_t) : list cluster := map mk_cluster c.2.
+
+(* the state in the middle of an exchange with inner operations (the state itself for any other operation) *)
+Definition mid_of (strict : bool) (c : cluster) (o : op) : cluster :=
+  match o with
+  | ExchangeN i j inner =>
+      if decide (i = j) then c else
+      match c !! i, c !! j with
+      | Some _, Some _ => fold_left (fun c kl => bstep strict c (inner_op kl)) inner c
+      | _, _ => c
+      end
+  | _ => c
+  end.
+Definition is_nested (o : op) : bool := match o with ExchangeN _ _ _ => true | _ => false end.
+Fixpoint model_mids (strict : bool) (c : cluster) (ops : list op) : list cluster :=
+  match ops with
+  | [] => []
+  | o :: rest => (if is_nested o then [mid_of strict c o] else []) ++ model_mids strict (step strict c o) rest
+  end.
 
 (* model states after each op *)
 Fixpoint model_trace (strict : bool) (c : cluster) (ops : list op) : list cluster :=
@@ -99,10 +132,11 @@ Fixpoint model_trace (strict : bool) (c : cluster) (ops : list op) : list cluste
 
 Definition mismatch (c : case_t) : bool :=
   let '(c0, tr) := obs_of c in
-  negb (bool_decide (model_trace false c0 (map fst tr) = map snd tr)).
+  negb (bool_decide (model_trace false c0 (map fst tr) = map snd tr)) ||
+  negb (bool_decide (model_mids false c0 (map fst tr) = mids_of c)).
 
 Definition violates (c : case_t) : bool :=
-  let '(c0, tr) := obs_of c in negb (ok_C12 c0 tr).
+  let '(c0, tr) := obs_of c in negb (ok_C12 c0 tr && ok_mids c0 tr (mids_of c)).
 
 Definition mismatches (cs : list case_t) : list nat := find_idx mismatch cs.
 Definition violations (cs : list case_t) : list nat := find_idx violates cs.
